@@ -1,6 +1,7 @@
 #ifndef TULZ_THREAD_H
 #define TULZ_THREAD_H
 
+#include <atomic>
 #include <thread>
 
 #include "Runnable.h"
@@ -43,7 +44,8 @@ public:
 
 private:
     std::thread m_thread;
-    bool m_isFinished = false;
+    // written by the thread itself, polled by its owner
+    std::atomic<bool> m_isFinished {false};
 };
 }
 
